@@ -78,8 +78,7 @@ type c09Case struct {
 	bg     sync.WaitGroup
 	wa, ja string
 	joined bool
-	lastSet, downUnwaited int
-	rsNA   bool
+	lastSet int
 }
 
 func newC09Case() *c09Case {
@@ -114,14 +113,6 @@ func (c *c09Case) setWorkers(k int, wait bool) {
 	w := 0
 	if wait {
 		w = 1
-	}
-	if c.downUnwaited > 0 {
-		// a resize while an earlier non-waiting resize-down is still carried out: workerKill / the number
-		// of new workers is computed from a stale len(workerMap) — outside the judged scope (see report)
-		c.rsNA = true
-	}
-	if c.lastSet >= 0 && k < c.lastSet && !wait {
-		c.downUnwaited++
 	}
 	c.lastSet = k
 	c.s.Note(fmt.Sprintf("SC.%d.%d", k, w))
@@ -170,11 +161,7 @@ func (c *c09Case) joinAll() {
 }
 
 func (c *c09Case) quiesce() bool {
-	ok := c.s.Quiesce(time.Second)
-	if ok {
-		c.downUnwaited = 0
-	}
-	return ok
+	return c.s.Quiesce(time.Second)
 }
 
 // finish: quiescence, stuck detection, final observation, monitors, cleanup.
@@ -242,7 +229,7 @@ func (c *c09Case) finish() string {
 		exec = "bad:" + strings.Join(bad, ",")
 	}
 	rs := "na"
-	if c.lastSet >= 0 && !c.joined && !c.rsNA && stuck == "0" {
+	if c.lastSet >= 0 && !c.joined && stuck == "0" {
 		rs = "ok"
 		if w != c.lastSet {
 			rs = "bad"
@@ -266,7 +253,8 @@ func (c *c09Case) finish() string {
 // ---------------------------------------------------------------- directed schedules
 
 var c09Directed = []string{"lostwakeup-empty", "lostwakeup-locked", "lostwakeup-checked", "kill-vs-wait",
-	"kill-vs-wait-empty", "resize-up-burst", "resize-down-burst", "joinall-burst", "waitall-running", "plain"}
+	"kill-vs-wait-empty", "resize-up-burst", "resize-down-burst", "joinall-burst", "waitall-running", "plain",
+	"resize-overkill", "resize-undershoot", "resize-spin"}
 
 // cycleAndPark makes every worker go once through its loop and parks them at `point`
 // (workers that reach it), returns the rule. The workers are woken by adding and
@@ -353,17 +341,37 @@ func c09RunDirected(name string, W int) string {
 			c.setWorkers(W, true)
 		}
 	case "resize-overkill":
-		// NOT in the default corpus (exhibits the resize race of the current code): a worker that took a
-		// kill request is still in workerMap when the next SetWorkerCount computes workerKill.
+		// the resize race (repaired by fixes/C09-resize-race.patch): a worker that took a kill request is
+		// still in workerMap when the next SetWorkerCount computes workerKill
 		c.setWorkers(W+2, false)
 		c.quiesce()
 		r := s.AddRule("w*", "pool.get.killexit", 1)
 		c.setWorkers(W+1, false)
 		r.WaitParked(1, 500*time.Millisecond)
-		c.rsNA = false
-		c.downUnwaited = 0
 		c.setWorkers(W, false)
 		s.Release(r)
+	case "resize-undershoot":
+		// a worker that took a kill request is still in workerMap when the next SetWorkerCount grows the pool
+		c.setWorkers(W+2, false)
+		c.quiesce()
+		r := s.AddRule("w*", "pool.get.killexit", 1)
+		c.setWorkers(W+1, false)
+		r.WaitParked(1, 500*time.Millisecond)
+		c.setWorkers(W+3, false)
+		s.Release(r)
+	case "resize-spin":
+		// … when the next SetWorkerCount shrinks further and waits: it must return
+		c.setWorkers(W+2, false)
+		c.quiesce()
+		r := s.AddRule("w*", "pool.get.killexit", 1)
+		c.setWorkers(W+1, false)
+		r.WaitParked(1, 500*time.Millisecond)
+		d := make(chan struct{})
+		go func() { s.Adopt(); c.setWorkers(W, true); close(d) }()
+		s.WaitRecord("sd.", 500*time.Millisecond)
+		time.Sleep(time.Millisecond)
+		s.Release(r)
+		<-d
 	case "joinall-burst":
 		c.setWorkers(W, false)
 		for k := 0; k < 10; k++ {
@@ -492,7 +500,6 @@ func c09GenProg(r *Rand, W int, g *Gen) string {
 	var ops []string
 	n := 1 + r.Intn(6)
 	cur := W
-	unwaitedDown := false
 	for k := 0; k < n; k++ {
 		switch x := r.Intn(10); {
 		case x < 3:
@@ -512,12 +519,6 @@ func c09GenProg(r *Rand, W int, g *Gen) string {
 			if r.Intn(3) == 0 {
 				k = 1 + r.Intn(3)
 			}
-			if unwaitedDown {
-				// a resize computed from a stale worker count can over-/under-shoot and even hang (finding
-				// resize-race, see `D resize-overkill`): not generated
-				ops = append(ops, "q")
-				unwaitedDown = false
-			}
 			wait := r.Intn(3) == 0
 			if wait {
 				ops = append(ops, "U"+strconv.Itoa(k))
@@ -525,7 +526,6 @@ func c09GenProg(r *Rand, W int, g *Gen) string {
 				ops = append(ops, "u"+strconv.Itoa(k))
 			}
 			if k < cur {
-				unwaitedDown = !wait
 				g.Count("op.resize-down")
 			} else {
 				g.Count("op.resize-up")
@@ -536,7 +536,6 @@ func c09GenProg(r *Rand, W int, g *Gen) string {
 			g.Count("op.waitall")
 		default:
 			ops = append(ops, "q")
-			unwaitedDown = false
 			g.Count("op.quiesce")
 		}
 	}
